@@ -155,7 +155,7 @@ def sample_surface(
     """
     assert mesh.is_triangular()
     NF = len(mesh.faces)
-    areas = face_area(mesh, persistent=False).as_array()
+    areas = np.atleast_1d(face_area(mesh, persistent=False).as_array())
     areas /= np.sum(areas)
     sampled_pts = np.zeros((n_pts,3))
     
